@@ -66,6 +66,43 @@ type Op struct {
 	B    [][]byte `json:"b,omitempty"`
 }
 
+// opJSON is the wire form of Op: S travels twice, readable ("s", lossy for
+// invalid UTF-8) and exact ("s64", base64), so that replay files reproduce
+// byte-exact inputs.
+type opJSON struct {
+	ID   int      `json:"id"`
+	Proc int      `json:"proc,omitempty"`
+	Kind string   `json:"kind"`
+	A    []int64  `json:"a,omitempty"`
+	S    []string `json:"s,omitempty"`
+	S64  [][]byte `json:"s64,omitempty"`
+	B    [][]byte `json:"b,omitempty"`
+}
+
+// MarshalJSON implements json.Marshaler.
+func (o Op) MarshalJSON() ([]byte, error) {
+	j := opJSON{ID: o.ID, Proc: o.Proc, Kind: o.Kind, A: o.A, S: o.S, B: o.B}
+	for _, s := range o.S {
+		j.S64 = append(j.S64, []byte(s))
+	}
+	return json.Marshal(j)
+}
+
+// UnmarshalJSON implements json.Unmarshaler.
+func (o *Op) UnmarshalJSON(b []byte) error {
+	var j opJSON
+	if err := json.Unmarshal(b, &j); err != nil {
+		return err
+	}
+	*o = Op{ID: j.ID, Proc: j.Proc, Kind: j.Kind, A: j.A, S: j.S, B: j.B}
+	if len(j.S64) == len(j.S) {
+		for i := range j.S64 {
+			o.S[i] = string(j.S64[i])
+		}
+	}
+	return nil
+}
+
 func (o Op) String() string {
 	var sb strings.Builder
 	fmt.Fprintf(&sb, "#%d p%d %s", o.ID, o.Proc, o.Kind)
